@@ -132,7 +132,7 @@ let random_position (r : rng) ~(dfrc : bool) : spos option =
        field) shows within a few plies *)
     let half = [| 0; 0; 0; 1; 7; 8; 30; 99; 100; 150; 0; 1; 7; 8; 30; 99; 100; 150; 254; 255; 256; 65534; 65536; 4294967294 |].(rand r 24) in
     let half = if ep <> None then 0 else half in
-    let p = spos_of_array a turn ~wk:rights.(0) ~wq:rights.(1) ~bk:rights.(2) ~bq:rights.(3) ~ep ~half ~full:(if chance r 1 12 then [| 254; 255; 65535; 4294967295 |].(rand r 4) else 1 + rand r 80) () in
+    let p = spos_of_array a turn ~wk:rights.(0) ~wq:rights.(1) ~bk:rights.(2) ~bq:rights.(3) ~ep ~half ~full:(if chance r 1 10 then [| 0; 0; 254; 255; 65535; 4294967295 |].(rand r 6) else 1 + rand r 80) () in
     if lc dfrc p then Some p else None
   end
 
@@ -153,8 +153,9 @@ let castling_family (r : rng) (count : int) : (bool * spos) list =
     (match kr with Some f -> a.(base + f) <- Some (s, Rook) | None -> ());
     (match qr with Some f -> a.(base + f) <- Some (s, Rook) | None -> ());
     let them = if s = White then Black else White in
-    (* enemy king far away *)
-    let ek = (if s = White then 56 else 0) + rand r 8 in
+    (* enemy king far away — one time in three on the f- or d-file at any distance, so that castling gives check with the rook *)
+    let ek = if chance r 1 3 then (let rk = if s = White then 2 + rand r 6 else rand r 6 in rk * 8 + (if chance r 1 2 then 5 else 3))
+      else (if s = White then 56 else 0) + rand r 8 in
     if a.(ek) = None then begin
       a.(ek) <- Some (them, King);
       (* attacker on ranks 1-3 (from the castling side's point of view), any type *)
@@ -193,7 +194,8 @@ let ep_family (r : rng) (count : int) : (bool * spos) list =
     a.(pushed) <- Some (them, Pawn);
     (* one or two capturing pawns *)
     let cands = List.filter (fun f -> f >= 0 && f <= 7) [ pf - 1; pf + 1 ] in
-    List.iter (fun f -> if chance r 3 4 then a.(prank * 8 + f) <- Some (s, Pawn)) cands;
+    let both = chance r 1 3 in
+    List.iter (fun f -> if both || chance r 3 4 then a.(prank * 8 + f) <- Some (s, Pawn)) cands;
     let free () = let l = ref [] in Array.iteri (fun i c -> if c = None && i <> epsq && i <> (if s = White then epsq + 8 else epsq - 8) then l := i :: !l) a; !l in
     (* kings: bias our king onto the pawn's rank, a diagonal through the capturer or ep square, or the file *)
     let ksq = match rand r 4 with
@@ -202,14 +204,18 @@ let ep_family (r : rng) (count : int) : (bool * spos) list =
       | _ -> rand r 64 in
     if a.(ksq) = None && ksq <> epsq then begin
       a.(ksq) <- Some (s, King);
-      let ek = pick r (free ()) in
+      (* the enemy king: anywhere, or on the rank / file / a diagonal of the pushed pawn (the capture vacates two squares
+         and can uncover one of our sliders onto it) *)
+      let fr = free () in
+      let on_line q = let dx = Stdlib.abs (q mod 8 - pf) and dy = Stdlib.abs (q / 8 - prank) in q <> pushed && (dx = 0 || dy = 0 || dx = dy) in
+      let ek = match List.filter on_line fr with l when l <> [] && chance r 1 3 -> pick r l | _ -> pick r fr in
       if not (king_adjacent ek ksq) then begin
         a.(ek) <- Some (them, King);
         let n = 1 + rand r 3 in
         for _ = 1 to n do
           let q = pick r (free ()) in
           let pc = [| Rook; Bishop; Queen; Knight; Rook; Queen |].(rand r 6) in
-          a.(q) <- Some ((if chance r 4 5 then them else s), pc)
+          a.(q) <- Some ((if chance r 3 5 then them else s), pc)
         done;
         let p = spos_of_array a s ~ep:(Some epsq) () in
         if lc true p then out := (true, p) :: !out
@@ -246,6 +252,25 @@ let pin_family (r : rng) (count : int) : (bool * spos) list =
       end
     done;
     let free () = let l = ref [] in Array.iteri (fun i c -> if c = None then l := i :: !l) a; !l in
+    (* one time in three: one or two direct checkers as well (knight jump, pawn, adjacent-line slider) *)
+    if chance r 1 3 then
+      for _ = 1 to 1 + rand r 2 do
+        match rand r 3 with
+        | 0 -> let jumps = [ (1, 2); (2, 1); (-1, 2); (-2, 1); (1, -2); (2, -1); (-1, -2); (-2, -1) ] in
+          let dx, dy = List.nth jumps (rand r 8) in
+          let x = kf + dx and y = kr + dy in
+          if x >= 0 && x <= 7 && y >= 0 && y <= 7 && a.(y * 8 + x) = None then a.(y * 8 + x) <- Some (them, Knight)
+        | 1 -> let y = if s = White then kr + 1 else kr - 1 in
+          let x = kf + (if chance r 1 2 then 1 else -1) in
+          if x >= 0 && x <= 7 && y >= 1 && y <= 6 && a.(y * 8 + x) = None then a.(y * 8 + x) <- Some (them, Pawn)
+        | _ -> let dx, dy = dirs.(rand r 8) in
+          let d = 1 + rand r 4 in
+          let x = kf + dx * d and y = kr + dy * d in
+          let inb = x >= 0 && x <= 7 && y >= 0 && y <= 7 in
+          let clear = inb && List.for_all (fun i -> a.((kr + dy * i) * 8 + kf + dx * i) = None) (List.init (max 0 (d - 1)) (fun i -> i + 1)) in
+          if inb && clear && a.(y * 8 + x) = None then
+            a.(y * 8 + x) <- Some (them, (if dx = 0 || dy = 0 then Rook else Bishop))
+      done;
     let ek = pick r (free ()) in
     if not (king_adjacent ek (kr * 8 + kf)) then begin
       a.(ek) <- Some (them, King);
